@@ -1,8 +1,9 @@
 import Skv.Drv.C08
 import Skv.Drv.C12
 import Skv.Drv.C04
+import Skv.Drv.C05
 
-def drivers : List (String × LineDriver) := [("c08", c08Driver), ("c12", c12Driver), ("c04", c04Driver)]
+def drivers : List (String × LineDriver) := [("c08", c08Driver), ("c12", c12Driver), ("c04", c04Driver), ("c05", c05Driver)]
 
 def main (args : List String) : IO UInt32 := do
   match args with
